@@ -26,7 +26,7 @@ VARIANTS[-1]["name"] = "fixed(" + VARIANTS[-1]["name"] + ")"
 RULE = ("a case is a history over 1-2 datasets and a 2-4 id pool: batches whose contents flip back to earlier values, keep references "
         "across property changes, toggle the deleted flag, repeat an element inside the batch (duplicate versions through the public API, "
         "F02a/F02b) and legacy duplicates injected with raw key deletes at any position; then one or two compactions with threshold in "
-        "{1,2,3,5,default}, optionally killed at the k-th flush (store reopened) or with a writer committing at the k-th flush; every "
+        "{1,2,3,5,default}, optionally killed at the k-th compact.beforeFlush or compact.afterFlush (every flush index incl. the final one; store reopened) or with a writer committing at the k-th flush; every "
         "compaction is bracketed by the same block of reads (full feed, latest-only feed, listing, current and point-in-time lookups, "
         "outgoing/incoming relations) and a raw key dump (a failing or panicking read is a spec failure); plus targeted cases: k entities "
         "whose last version is a duplicate, threshold 1-2, a writer at the r-th flush writing an entity whose re-point was already "
@@ -37,7 +37,7 @@ TRUSTED = [
     "equality is modelled as IsEntityEqual on two stored versions (both decoded from JSON)",
     "the order in which the compactor visits entities (internal ids) is taken from the raw key dump preceding the compaction, "
     "it is an input of the model (theorems quantify over every order)",
-    "a crash is realised as a panic at the compact.beforeFlush hook followed by closing and reopening the store; a racing writer as "
+    "a crash is realised as a panic at the compact.beforeFlush or compact.afterFlush hook (= every boundary between flush transactions) followed by closing and reopening the store; a racing writer as "
     "StoreEntities called at that hook (the compactor holds no lock, so this is a legal schedule); true parallel interleavings inside "
     "one badger transaction are not explored",
     "reference-index keys are not modelled: they only count towards the flush threshold (2 keys per target); relationship queries are "
@@ -136,6 +136,21 @@ def witness_cases():
     cs.append(compact_case(["a"], ["e1", "e2"], [B("a", E("e1", A, r), E("e2", Bb)), {"op": "dup", "ds": "a", "id": "http://v/e1"},
                                                   {"op": "dup", "ds": "a", "id": "http://v/e2"}, {"op": "dup", "ds": "a", "id": "http://v/e1"}],
                            [{"ds": "a", "threshold": 1, "crash_at": 2}, {"ds": "a", "threshold": 2}]))
+    # kill at compact.afterFlush of the flush that removes an entity's LATEST version (a duplicate): the re-point must have been
+    # committed with the deletion; thresholds 1, 2 and default (there it is the final flush); v2 changes property AND reference
+    for thr, k in ((1, 1), (2, 1), (0, 1), (1, 2)):
+        cs.append(compact_case(["a"], ["e1", "e2"],
+                               [B("a", E("e1", A, r), E("e2", Bb)), B("a", E("e1", Bb, {"r1": "e3"})), {"op": "dup", "ds": "a", "id": "http://v/e1"},
+                                {"op": "dup", "ds": "a", "id": "http://v/e2"}],
+                               [{"ds": "a", "threshold": thr, "crash_after": k}, {"ds": "a", "threshold": 1}],
+                               later=[[B("a", E("e1", {"p1": "c"}))]]))
+    # two differing versions of one entity in ONE batch keeping a reference (shared reference keys), then a flip back to the first
+    cs.append(compact_case(["a"], ["e1", "e2"], [B("a", E("e1", A, r), E("e1", Bb, r)), B("a", E("e1", A, r))], [{"ds": "a", "threshold": 1}]))
+    cs.append(compact_case(["a"], ["e1", "e2", "e3"], [B("a", E("e1", A, {"r1": "e2"}), E("e1", A, {"r1": "e2", "r2": "e3"})), B("a", E("e1", Bb, {"r1": "e2"}))],
+                           [{"ds": "a", "threshold": 2}]))
+    # a kept reference whose value is an empty list, then a flip back
+    er = {"r2": []}
+    cs.append(compact_case(["a"], ["e1"], [B("a", E("e1", A, er)), B("a", E("e1", Bb, er)), B("a", E("e1", A, er))], [{"ds": "a", "threshold": 0}]))
     # delete / un-delete run with duplicates in between
     cs.append(compact_case(["a"], ["e1"], [B("a", E("e1", A)), B("a", E("e1", A, None, True)), {"op": "dup", "ds": "a", "id": "http://v/e1"},
                                            B("a", E("e1", A)), {"op": "dup", "ds": "a", "id": "http://v/e1"}],
@@ -176,6 +191,8 @@ def gen_case(rng, tier):
             c = {"props": {"p1": rng.choice(["a", "b"])}, "refs": {"r1": rng.choice(sc.IDS[:3])}}
             if rng.chance(1, 3):
                 c["refs"]["r2"] = [rng.choice(sc.IDS[:3]), rng.choice(sc.IDS[:3])]
+            elif rng.chance(1, 3):
+                c["refs"] = {"r2": []}                         # a kept reference with no targets: zero keys on both sides
         elif r < 16:
             old, new = rng.choice(sc.ENGINEERED)
             c = new if h and json.dumps(h[-1], sort_keys=True) == json.dumps(old, sort_keys=True) else old
@@ -198,8 +215,15 @@ def gen_case(rng, tier):
             c = content_for(ds, i)
             hist[(ds, i)].append(c)
             ents.append(sc.with_id(i, c))
-            if rng.chance(1, 4):
-                ents.append(sc.with_id(i, c))                   # in-batch repeat
+            if rng.chance(1, 3):
+                if rng.chance(1, 3):
+                    ents.append(sc.with_id(i, c))               # in-batch repeat
+                else:                                           # in-batch twin: same references, another property value (same recorded time)
+                    c2 = json.loads(json.dumps(c))
+                    c2["props"] = dict(c2["props"])
+                    c2["props"]["p1"] = rng.choice(["a", "b", "bb", 1, 2, True])
+                    hist[(ds, i)].append(c2)
+                    ents.append(sc.with_id(i, c2))
         writes.append({"op": "batch", "ds": ds, "ents": ents})
     comps = []
     ncomp = rng.choice([1, 1, 2])
@@ -209,7 +233,7 @@ def gen_case(rng, tier):
         cp = {"ds": datasets[0], "threshold": rng.choice(THRESHOLDS)}
         r = rng.below(10)
         if r < 2 and n < 2:
-            cp["crash_at"] = rng.range(1, 3)
+            cp[rng.choice(["crash_at", "crash_after"])] = rng.range(1, 3)
             ncomp = max(ncomp, n + 2)                      # a killed compaction is always followed by another one
         elif r < 4:
             i = rng.choice(pool)
@@ -219,7 +243,7 @@ def gen_case(rng, tier):
                 ents.append(sc.with_id(j, content_for(datasets[0], j)))
             cp["race"] = {"at": rng.range(1, 3), "ents": ents}
             if rng.chance(1, 4) and n < 2:
-                cp["crash_at"] = rng.range(1, 3)
+                cp[rng.choice(["crash_at", "crash_after"])] = rng.range(1, 3)
                 ncomp = max(ncomp, n + 2)
         comps.append(cp)
         n += 1
@@ -252,8 +276,11 @@ def gen_targeted(rng):
         i = tgt[0]
         later = [[B("a", E(i, {"p1": "a"}))] + block("a", pool, "x9")]
         return compact_case(["a"], pool, writes, comps, later)
-    comps = [{"ds": "a", "threshold": thr, "crash_at": r}, {"ds": "a", "threshold": rng.choice(THRESHOLDS)}]
-    return compact_case(["a"], pool, writes, comps, [[]])
+    thr = rng.choice([1, 1, 2, 3, 0])
+    kind = rng.choice(["crash_at", "crash_after", "crash_after"])
+    comps = [{"ds": "a", "threshold": thr, kind: rng.range(1, k + 1) if thr else 1}, {"ds": "a", "threshold": rng.choice(THRESHOLDS)}]
+    i = rng.choice(pool)
+    return compact_case(["a"], pool, writes, comps, [[B("a", E(i, {"p1": rng.choice(["a", "c"])}))] if rng.chance(1, 2) else []])
 
 
 def gen(rng, tier):
@@ -379,8 +406,9 @@ def term(case, obs):
                 lens = oo.get("lens") or [0] * len(op["race"]["ents"])
                 race = "(Some (%d, %s))" % (op["race"]["at"], vlib.coq_list([sc.ent_term(CODES, e, l) for e, l in zip(op["race"]["ents"], lens)]))
             order = vlib.coq_list([str(x) for x in last_raw_latest.get(op["ds"], [])])
-            terms.append("CCompact %d %d %d %s %s %s %s %s %s\n    %s\n    %s" % (
-                sc.ds_code(case, op["ds"]), op.get("threshold", 0), op.get("crash_at", 0), race, order,
+            terms.append("CCompact %d %d %d %s %s %s %s %s %s %s\n    %s\n    %s" % (
+                sc.ds_code(case, op["ds"]), op.get("threshold", 0), op.get("crash_after", 0) or op.get("crash_at", 0),
+                vlib.coq_bool(bool(op.get("crash_after"))), race, order,
                 vlib.zlit(-5 if bad else oo.get("flushes", 0)), vlib.coq_bool(bool(oo.get("crashed"))), vlib.coq_bool(bool(oo.get("raced"))),
                 vlib.zlit(oo.get("newseqs", 0)), robs_term(case, obs, "b%d" % ncomp, ns, ticks), robs_term(case, obs, "a%d" % ncomp, ns, ticks)))
             ncomp += 1
@@ -460,6 +488,8 @@ def tags(c, o):
         t.append("threshold=%d" % op.get("threshold", 0))
         if op.get("crash_at"):
             t.append("crash_requested")
+        if op.get("crash_after"):
+            t.append("crash_after_requested")
         if op.get("race"):
             t.append("race_requested")
         t.append("flushes=%d" % min(oo.get("flushes", 0), 6))
